@@ -271,9 +271,6 @@ func (w *world) ensureInit(pkg *ssa.Package) {
 	if initFn == nil || initFn.Blocks == nil {
 		return
 	}
-	if skipInit[pkg.Pkg.Path()] {
-		return
-	}
 	// collect globals with initialisers
 	tg := make(map[*ssa.Global]bool)
 	for _, b := range initFn.Blocks {
@@ -286,6 +283,11 @@ func (w *world) ensureInit(pkg *ssa.Package) {
 		}
 	}
 	w.initTargets[pkg] = tg
+	if skipInit[pkg.Pkg.Path()] {
+		// never executed: every initialised global of the package is poison
+		w.initFail[pkg] = "package initialiser is not executed by the engine"
+		return
+	}
 	// Run with an unlimited budget and outside path bookkeeping.
 	savedFuel, savedDepth := w.fuel, w.depth
 	w.fuel = 1 << 40
@@ -323,7 +325,7 @@ func (w *world) ensureInit(pkg *ssa.Package) {
 // packages whose initialisers are never run (nothing in them is needed, and
 // they touch the OS or the runtime).
 var skipInit = map[string]bool{
-	"runtime": true, "os": true, "syscall": true, "internal/poll": true, "time": true,
+	"runtime": true, "os": false, "syscall": true, "internal/poll": true, "time": true,
 	"internal/godebug": true, "internal/cpu": true, "internal/runtime/atomic": true,
 	"reflect": true, "sync": true, "internal/sync": true, "os/signal": true, "net": true,
 	"internal/testlog": true, "io/fs": false, "testing": true, "runtime/debug": true,
